@@ -71,7 +71,11 @@ pub trait AggregateRequestBound: RequestBound {
 /// necessarily yields `delta=1`, which results in `A=0` being the
 /// first element yielded by `step_offsets`.
 pub fn step_offsets(rb: &'_ (impl RequestBound + ?Sized)) -> impl Iterator<Item = Offset> + '_ {
-    rb.steps_iter().map(Offset::closed_from_time_zero)
+    rb.steps_iter()
+        // An interval of length zero contains no offset; skip such a "step" (some
+        // arrival models report one) instead of wrapping around below zero.
+        .filter(|delta| delta.is_non_zero())
+        .map(Offset::closed_from_time_zero)
 }
 
 mod aggregate;
